@@ -114,6 +114,72 @@ def mutate(rng, src, toks):
     return src[:t[1]] + junk + src[t[2] + 1:]
 
 
+BROKEN_EXPRS = ["x + ", "a a", "(", "1 +* 2", "f(,)", "[1, ", "if", "x :=", "x.", "x[", ")", "1 2", "\"s", "x ? 1", "func(", "{", "x +\n", "@", "0x",
+                "..", "a b c", "x == ", "!", "x | ", "x ? : 2", "[1 2]", "f(1 2)", "x.(", "1 +", "* 2", "x y", "return", "=", "x = = 1"]
+VALID_EXPRS = ["x + 1", "f(1, 2)", "[1, 2][0]", "x ? 1 : 2", "len(xs)", "a.b(c)", "x * (y - 2)", "{\"k\": 1}[\"k\"]", "xs[1:2]", "!x && y", "x | f"]
+
+
+def broken_fragment(rng):
+    """the text of an interpolation that (most of the time) does not parse"""
+    if rng.chance(1, 2):
+        return rng.choice(BROKEN_EXPRS)
+    e = rng.choice(VALID_EXPRS)
+    pos = rng.below(len(e) + 1)
+    k = rng.below(3)
+    if k == 0 and e:
+        pos = min(pos, len(e) - 1)
+        return e[:pos] + e[pos + 1:]
+    if k == 1:
+        return e[:pos] + rng.choice(list("()[],+*:=?.|x1 ") + [" x", "if", ":="]) + e[pos:]
+    return e[:pos] + e[max(0, pos - 2):]
+
+
+def mutate_template(rng, src, toks):
+    """a syntax error INSIDE the braces of a template string: in a template of the program, or in a new statement put at a line
+    end anywhere in the program - after comments, after a multi-line raw string, inside nested blocks, behind multi-byte text"""
+    real = [t for t in toks if t[0] not in ("EOF",)]
+    tmpl = [t for t in real if src[t[1]:t[1] + 1] == "'" and "{" in src[t[1]:t[2] + 1]]
+    if tmpl and rng.chance(1, 2):
+        t = rng.choice(tmpl)
+        text = src[t[1]:t[2] + 1]
+        opens = [i for i, ch in enumerate(text) if ch == "{"]
+        o = rng.choice(opens)
+        c = text.find("}", o)
+        if c > o:
+            return src[:t[1]] + text[:o + 1] + broken_fragment(rng) + text[c:] + src[t[2] + 1:]
+    pre = rng.choice(["", "total: ", "a {x} b ", "\u00e9\u4e16 ", "{1}{2}", "  ", "\\n"])
+    post = rng.choice(["", " end", " {x}", "{1}", " \u00e9"])
+    template = "'%s{%s}%s'" % (pre, broken_fragment(rng).replace("'", ""), post)
+    lead = rng.choice(["", "", "// note\n", "/* block\n comment */\n", "raw_q := `line one\nline two`\n", "\n\n", "# hash\n"])
+    stmt = rng.choice(["tq := %s", "print(%s)", "  tq := [1, %s]", "tq := {\"k\": %s}", "if true {\n    tq := %s\n}", "func() {\n  return %s\n}()",
+                       "tq := \"\u00e9\u4e16\u754c\" + %s", "tq := `a\nb` + %s", "tq := [\n  1,\n  %s,\n]", "for i := range 2 {\n  if i > 0 {\n\tprint(%s)\n  }\n}",
+                       "tq := 'ok {1}' + %s", "%s"]) % template
+    eols = [t for t in real if t[0] == "EOL"]
+    if eols and rng.chance(4, 5):
+        t = rng.choice(eols)
+        return src[:t[2] + 1] + lead + stmt + "\n" + src[t[2] + 1:]
+    return lead + stmt + "\n" + src
+
+
+K_LEXPOS = "lexer-error-position-lost"
+K_NOFILE = "no-file-name-for-lexer-errors-in-the-first-two-tokens"
+
+
+def load_known_ids():
+    """open known findings of this property by id (known_findings.jsonl and the per-agent known_findings.*.jsonl)"""
+    import glob, json
+    ids = {}
+    for fn in [os.path.join(C.VERIF, "known_findings.jsonl")] + sorted(glob.glob(os.path.join(C.VERIF, "known_findings.*.jsonl"))):
+        if os.path.exists(fn):
+            for line in open(fn):
+                line = line.strip()
+                if line and not line.startswith("#"):
+                    j = json.loads(line)
+                    if j.get("property") == PROP and not j.get("fixed") and j.get("id"):
+                        ids.setdefault(j["id"], j)
+    return ids
+
+
 def line_text(src, n):
     lines = src.split("\n")
     if 1 <= n <= len(lines):
@@ -175,13 +241,24 @@ def run(res):
         stv = core.stages(variants, tools, os.path.join(work, "var"), want=("tok", "past", "code"))
         muts, mut_origin = [], []
         j = 0
+        # mutants of the programs and of their re-laid-out variants (errors after comments, blank lines, CRLF, line breaks)
+        vpool = []
+        for vi in range(0, len(variants), 3):
+            vt = parse_tokens(stv["tok_go"][vi])
+            if vt is not None and stv["past_go"][vi].startswith("(prog"):
+                vpool.append((variants[vi], vt))
         while len(muts) < nmut:
             i = j % len(base)
             j += 1
-            toks = parse_tokens(st0["tok_go"][i])
+            src, toks = base[i], parse_tokens(st0["tok_go"][i])
+            if j % 3 == 2 and vpool:
+                src, toks = vpool[(j // 3) % len(vpool)]
             if toks is None:
                 continue
-            muts.append(mutate(rng, base[i], toks))
+            if j % 4 == 1:
+                muts.append(mutate_template(rng, src, toks))
+            else:
+                muts.append(mutate(rng, src, toks))
             mut_origin.append(i)
         hexin = "\n".join(m.encode("utf-8", "surrogateescape").hex() for m in muts) + "\n"
         nsh = C.NCPU
@@ -225,6 +302,8 @@ def run(res):
                        "ast_original": st0["past_go"][i][:400], "ast_variant": past[:400],
                        "why": "inserting only blanks / comments / permitted line breaks changed the syntax tree or the bytecode"})
     # diagnostics oracle
+    known_ids = load_known_ids()
+    known_seen = {}
     kinds = {}
     diag_checked = 0
     for src, d in zip(muts, diags):
@@ -243,6 +322,10 @@ def run(res):
         sl, scol, el, ecol = (int(x) for x in f[1:5])
         quoted = bytes.fromhex(f[5][1:]).decode("utf-8", "replace")
         friendly = f[6]
+        files = [bytes.fromhex(x[1:]).decode("utf-8", "replace") for x in f[8:10]]
+        in_template = "{" in (line_text(src.encode("utf-8", "surrogateescape").decode("utf-8", "replace"), sl) or "") 
+        if in_template:
+            kinds["PERR on a line with a template"] = kinds.get("PERR on a line with a template", 0) + 1
         text = src.encode("utf-8", "surrogateescape").decode("utf-8", "replace")
         lines = text.split("\n")
         why = None
@@ -259,6 +342,27 @@ def run(res):
             prev_lines = [x for x in lines[:sl - 1]]
             if not (at_eof and prev_lines and quoted == prev_lines[-1]):
                 why = "quoted source line %r is not line %d of the source (%r)" % (quoted, sl, lt)
+        # a lexer error must not be reported before the end of the last token the lexer could read (reference: lexing the
+        # source on its own in c20obs)
+        lx = f[10][3:] if len(f) > 10 and f[10].startswith("lx=") else "-"
+        if not bytes.fromhex(f[7]).startswith(b"syntax error:"):
+            lx = "-"        # the parser stopped at an error of its own before it came to the text the lexer rejects
+        known = None
+        if not why and lx != "-":
+            ntok, ll, lc = (int(x) for x in lx.split(":"))
+            if (sl, scol) < (ll, lc):
+                why = ("a lexer error is reported at line %d column %d, before the end (line %d column %d) of the last token that was read "
+                       "before it" % (sl, scol, ll, lc))
+                if (sl, scol) == (1, 1):
+                    known = K_LEXPOS
+        if not why and files and files[0] != "prog.risor":
+            why = "the diagnostic does not carry the file name given to the parser (error file: %r)" % files[0]
+            if lx != "-" and int(lx.split(":")[0]) <= 1:
+                known = K_NOFILE
+        if why and known and known in known_ids:
+            k = known_seen.setdefault(known, {"count": 0, "source": src, "why": why})
+            k["count"] += 1
+            why = None
         if why:
             oracle.append({"kind": "oracle-violation", "stage": "diagnostics", "source": src, "impl": d, "why": why})
 
@@ -267,8 +371,10 @@ def run(res):
     cov["rule"] = ("generated programs re-laid-out at every token gap with the permitted insertions (blanks, tabs, block comments incl. "
                    "adjacent ones, line comments at line ends, blank/comment lines between statements, line breaks after ',' in "
                    "brackets, after a binary operator, after '|', CRLF): AST dump and bytecode must equal the original's; single-token "
-                   "deletions/insertions/substitutions: the reported line and column must exist in the source, the quoted line must be "
-                   "that line verbatim, rendering must not fail. All inputs also go through the lexer and parser models "
+                   "deletions/insertions/substitutions of the programs AND of their re-laid-out variants, and syntax errors put inside the braces of template "
+                   "strings (existing templates, and new statements at any line end: after comments, after multi-line raw strings, in nested "
+                   "blocks, behind multi-byte text): the reported line and column must exist in the source, the quoted line must be "
+                   "that line verbatim, the error and its position carry the file name given to the parser, rendering must not fail. All inputs also go through the lexer and parser models "
                    "(tokens with all position fields, AST or error class with line/column). Non-trivial = distinct variants + mutants.")
     cov["samples"] = [{"variant_mode": origin[0][1], "variant": variants[0]}, {"mutant": muts[0], "diagnostic": diags[0]}]
     cov["layout"] = {"variants": len(variants), "equal": layout_ok, "by_mode": mode_hist}
@@ -279,6 +385,8 @@ def run(res):
         "an error positioned at the very end of the input (after a trailing newline) quotes the last line that has text: deliberate",
         "C20 theorems are about the lexer model (coq/model/Lexer.v), tied by token-level correspondence incl. all position fields",
     ]
+    for kid, k in sorted(known_seen.items()):
+        res.known_finding("%s: %s [%d mutants this run, e.g. %r: %s]" % (kid, known_ids[kid]["what"], k["count"], k["source"][:120], k["why"]))
     for v in oracle[:10]:
         v["property"] = PROP
         res.violation(v)
